@@ -1148,6 +1148,24 @@ def gen_c13_file(rng, tier):
             # notes may legitimately round to different ticks, the notes then overlap by one tick and are fused - the
             # *sounding set* is still the union, but a note-by-note comparison would raise a false alarm (it did, once)
             last_end[(ch, p)] = on + dur + min_len
+        if rng.random() < 0.2:
+            # "grace notes and trills": very short (0 .. 2 library ticks), touching and re-struck notes on a (channel, pitch) of
+            # their own. What they load as is not judged (a zero-length or fused note has no defined reading); they are there
+            # because whatever the loader does with them must not touch the notes of the OTHER pitches, which stay under
+            # the exact oracle
+            free = [q for q in range(21, 109) if q not in pitches]
+            if free:
+                npitch = rng.choice(free)
+                nch = rng.choice(chans)
+                tiny = sorted({0, 1, max(1, tpb // 48), max(1, tpb // 24), max(1, tpb // 12)})
+                pos = rng.choice([0, rng.randrange(0, 4 * tpb + 1)])
+                for _ in range(rng.randrange(2, 12)):
+                    dur = rng.choice(tiny)
+                    tr = rng.choice(members)
+                    tracks[tr].append({"tick": pos, "k": "on", "ch": nch, "pitch": npitch, "vel": rng.randrange(1, 128), "noise": 1})
+                    tracks[tr].append({"tick": pos + dur, "k": "off", "ch": nch, "pitch": npitch, "as_on0": rng.random() < 0.4,
+                                       "vel": 0, "noise": 1})
+                    pos += dur + rng.choice([0, 0, 1, max(1, tpb // 24), rng.randrange(0, tpb + 1)])
     # unison overlaps: two tracks of one group play the SAME (channel, pitch) at overlapping times (divisi parts doubling a
     # note, also both starting on tick 0). Merging fuses them into one note from the earliest start to the latest end; what
     # must hold is the *sounding set*. File ticks are multiples of the reduced denominator, so their positions are exact
@@ -1292,6 +1310,7 @@ def c13_expect(f):
             in_group.setdefault(t, gi)
     exp_notes = [[] for _ in groups]
     uni_sets = [dict() for _ in groups]
+    noise = [set() for _ in groups]
     uni_open = {}
     ts_pts, ks_pts = [], []
     for t, evs in enumerate(f["tracks"]):
@@ -1300,6 +1319,10 @@ def c13_expect(f):
             continue
         open_ = {}
         for e in evs:
+            if e.get("noise"):
+                if t in in_group:
+                    noise[in_group[t]].add((e["ch"], e["pitch"]))
+                continue
             if e.get("unison"):
                 if t in in_group:
                     if e["k"] == "on":
@@ -1325,7 +1348,7 @@ def c13_expect(f):
     ts_pts.sort(key=lambda x: x[0])
     ks_pts.sort(key=lambda x: x[0])
     return {"notes": exp_notes, "ts": function_in_force(ts_pts, (4, 4)), "ks": function_in_force(ks_pts, None),
-            "n_groups": len(groups), "unison": uni_sets}
+            "n_groups": len(groups), "unison": uni_sets, "noise": noise}
 
 
 def c13_compare(f, seqs):
@@ -1336,6 +1359,9 @@ def c13_compare(f, seqs):
     for gi, s in enumerate(seqs):
         msgs = s.abs._messages
         notes, odd = piano_roll(msgs)
+        if exp["noise"][gi]:
+            notes = [n for n in notes if (n[0], n[1]) not in exp["noise"][gi]]
+            odd = [o for o in odd if (o[1], o[2]) not in exp["noise"][gi]]
         if odd:
             return "ROUTING", f"group {gi}: unpaired note events after loading: {odd[:3]}"
         uni = exp["unison"][gi]
